@@ -213,9 +213,9 @@ func autoUpgradeSMPre(irModule *ir.Module, ep *ir.EntryPoint, smMinor uint32) ui
 // standalone stay as separate LLVM functions.
 func prepareModule(irModule *ir.Module) (*ir.Module, error) {
 	if len(irModule.Functions) == 0 {
-		return ir.CloneModuleForOverrides(irModule), nil
+		return cloneModuleForPreparation(irModule), nil
 	}
-	irModule = ir.CloneModuleForOverrides(irModule)
+	irModule = cloneModuleForPreparation(irModule)
 	shouldInline := func(callee *ir.Function) bool {
 		if helperNeedsInlining(irModule, callee) {
 			return true
@@ -241,6 +241,84 @@ func prepareModule(irModule *ir.Module) (*ir.Module, error) {
 		return nil, fmt.Errorf("dxil: inline user functions: %w", err)
 	}
 	return irModule, nil
+}
+
+// cloneModuleForPreparation copies everything the DXIL pipeline rewrites in
+// place. ir.CloneModuleForOverrides copies only the top-level statement slice
+// of each body and shares global variables, so inlining, the optimisation
+// passes and resource analysis would otherwise alter the caller's module
+// (nested blocks, synthetic bindings) and change what other backends emit
+// for it afterwards.
+func cloneModuleForPreparation(src *ir.Module) *ir.Module {
+	dst := ir.CloneModuleForOverrides(src)
+	dst.GlobalVariables = make([]ir.GlobalVariable, len(src.GlobalVariables))
+	copy(dst.GlobalVariables, src.GlobalVariables)
+	for i := range dst.Functions {
+		dst.Functions[i].Body = cloneBlock(dst.Functions[i].Body)
+	}
+	for i := range dst.EntryPoints {
+		dst.EntryPoints[i].Function.Body = cloneBlock(dst.EntryPoints[i].Function.Body)
+	}
+	return dst
+}
+
+// cloneBlock returns a copy of a statement block that shares no nested block,
+// slice or handle pointer with the original.
+func cloneBlock(src ir.Block) ir.Block {
+	if src == nil {
+		return nil
+	}
+	cloneHandle := func(p *ir.ExpressionHandle) *ir.ExpressionHandle {
+		if p == nil {
+			return nil
+		}
+		h := *p
+		return &h
+	}
+	dst := make(ir.Block, len(src))
+	copy(dst, src)
+	for i := range dst {
+		switch k := dst[i].Kind.(type) {
+		case ir.StmtBlock:
+			k.Block = cloneBlock(k.Block)
+			dst[i].Kind = k
+		case ir.StmtIf:
+			k.Accept = cloneBlock(k.Accept)
+			k.Reject = cloneBlock(k.Reject)
+			dst[i].Kind = k
+		case ir.StmtSwitch:
+			cases := make([]ir.SwitchCase, len(k.Cases))
+			copy(cases, k.Cases)
+			for j := range cases {
+				cases[j].Body = cloneBlock(cases[j].Body)
+			}
+			k.Cases = cases
+			dst[i].Kind = k
+		case ir.StmtLoop:
+			k.Body = cloneBlock(k.Body)
+			k.Continuing = cloneBlock(k.Continuing)
+			k.BreakIf = cloneHandle(k.BreakIf)
+			dst[i].Kind = k
+		case ir.StmtReturn:
+			k.Value = cloneHandle(k.Value)
+			dst[i].Kind = k
+		case ir.StmtCall:
+			if k.Arguments != nil {
+				args := make([]ir.ExpressionHandle, len(k.Arguments))
+				copy(args, k.Arguments)
+				k.Arguments = args
+			}
+			k.Result = cloneHandle(k.Result)
+			dst[i].Kind = k
+		case ir.StmtImageStore:
+			k.ArrayIndex = cloneHandle(k.ArrayIndex)
+			dst[i].Kind = k
+		case ir.StmtAtomic:
+			k.Result = cloneHandle(k.Result)
+			dst[i].Kind = k
+		}
+	}
+	return dst
 }
 
 // Compile translates a naga IR module to DXIL bytecode wrapped in
